@@ -1,3 +1,85 @@
-From ZV Require Import Lib.Base Model.IndexMutex.
-Theorem C31_placeholder : True. Proof. exact I. Qed.
-Print Assumptions C31_placeholder.
+(** C31 — index directory operations are mutually exclusive.
+    Model: Model/IndexMutex.v. A schedule is any list of atomic steps of any goroutines (ids are arbitrary
+    numbers, so any number of goroutines); [run init tr = Some s] says tr is a possible execution and s its
+    final state. All statements quantify over every such execution. *)
+From ZV Require Import Lib.Base Model.IndexMutex Proofs.IndexMutexInv Proofs.IndexMutexSpec.
+
+(** two operations for the same repository never run at the same time *)
+Theorem C31_no_two_same_repo_in_f : forall tr s t1 t2 n,
+  run init tr = Some s -> pcs s t1 = WInF n -> pcs s t2 = WInF n -> t1 = t2.
+Proof. intros tr s t1 t2 n H. apply no_two_same_repo. exact (reachable_inv tr s H). Qed.
+Print Assumptions C31_no_two_same_repo_in_f.
+
+(** a global operation never runs while any other operation (repository-scoped or global) runs; more:
+    while one goroutine holds the write lock no other goroutine holds the read or the write lock *)
+Theorem C31_global_excludes_all : forall tr s t u,
+  run init tr = Some s -> pcs s t = GInF -> u <> t -> in_f (pcs s u) = false.
+Proof. intros tr s t u H. apply global_excludes_all. exact (reachable_inv tr s H). Qed.
+Print Assumptions C31_global_excludes_all.
+
+Theorem C31_writer_excludes_lock_holders : forall tr s t u,
+  run init tr = Some s -> holds_w (pcs s t) = true -> u <> t -> holds_r (pcs s u) = false /\ holds_w (pcs s u) = false.
+Proof. intros tr s t u H. apply writer_excludes_all. exact (reachable_inv tr s H). Qed.
+Print Assumptions C31_writer_excludes_lock_holders.
+
+(** With returns true iff it executed f during that call (so a skipped operation is reported as skipped) *)
+Theorem C31_skip_reported : forall tr t res s s',
+  run init tr = Some s -> (exists r ran, pcs s t = WRet r ran) -> step s (ERet t res) = Some s' ->
+  res = ran_in_call tr t.
+Proof. exact skip_reported. Qed.
+Print Assumptions C31_skip_reported.
+
+(** ... and an operation is skipped only because another goroutine owns the same name at the moment of the
+    check (it set running[name] and has not yet deleted it), exactly in that case *)
+Theorem C31_skip_only_if_running : forall tr s t n s',
+  run init tr = Some s -> pcs s t = WRLocked n -> step s (EMuLock t) = Some s' ->
+  exists already, pcs s' t = WMu1 n already /\
+    (already = true <-> exists u, u <> t /\ owns (pcs s u) = Some n) /\
+    (already = true -> running s' = running s).
+Proof. intros tr s t n s' H. apply skip_only_if_running. exact (reachable_inv tr s H). Qed.
+Print Assumptions C31_skip_only_if_running.
+
+(** the running set is clean: it contains exactly the names owned by some goroutine between its check-and-set and
+    its deferred delete, each by one goroutine; the owner's delete removes exactly its name; the skipped caller
+    leaves the set alone; when every goroutine is idle the set is empty and all locks are free *)
+Theorem C31_running_set_clean : forall tr s,
+  run init tr = Some s ->
+  (forall n, In n (running s) <-> exists t, owns (pcs s t) = Some n) /\
+  (forall t1 t2 n, owns (pcs s t1) = Some n -> owns (pcs s t2) = Some n -> t1 = t2) /\
+  (forall t n s', pcs s t = WDone n -> step s (EMuLock t) = Some s' ->
+      In n (running s) /\ ~ In n (running s') /\ forall m, m <> n -> (In m (running s') <-> In m (running s))) /\
+  (forall t n s', pcs s t = WSkip n -> step s (ERUnlock t) = Some s' -> running s' = running s /\ pcs s' t = WRet false false) /\
+  ((forall t, pcs s t = Idle) -> running s = [] /\ readers s = [] /\ writer s = None /\ mu s = None).
+Proof.
+  intros tr s H. pose proof (reachable_inv tr s H) as I.
+  split; [apply (i_run _ I)|]. split; [apply (i_own _ I)|]. split; [intros; eapply delete_by_owner; eauto|].
+  split; [intros; eapply skip_path_keeps_running; eauto | apply quiescent_clean; exact I].
+Qed.
+Print Assumptions C31_running_set_clean.
+
+(** every recorded trace accepted by the model is such an execution (this is what the correspondence run checks) *)
+Theorem C31_accepts_sound : forall tr, accepts tr = true -> exists s, run init tr = Some s /\ Inv s.
+Proof.
+  intros tr H. unfold accepts in H. destruct (run init tr) as [s|] eqn:E; [|discriminate].
+  exists s. split; [reflexivity | exact (reachable_inv tr s E)].
+Qed.
+Print Assumptions C31_accepts_sound.
+
+(** * non-vacuity: goroutine 1 runs f for repository 7, goroutine 2 is skipped for the same repository, goroutine 3
+    waits in Global; the states named in the theorems are reachable *)
+Definition ex_tr : list ev :=
+  [ECallWith 1 7; ECallWith 2 7; ECallGlobal 3; ERLock 1; ERLock 2; EMuLock 1; EMuUnlock 1; EEnter 1;
+   EMuLock 2; EMuUnlock 2]%N.
+Example ex_in_f : exists s, run init ex_tr = Some s /\ pcs s 1%N = WInF 7 /\ pcs s 2%N = WSkip 7 /\ pcs s 3%N = GCalled /\ running s = [7%N].
+Proof. eexists. split; [vm_compute; reflexivity|]. vm_compute. repeat split; reflexivity. Qed.
+Example ex_lock_blocked : forall s, run init ex_tr = Some s -> step s (ELock 3) = None.
+Proof. intros s H. vm_compute in H. inversion H. reflexivity. Qed.
+Definition ex_tr2 : list ev :=
+  ex_tr ++ [ERUnlock 2; ERet 2 false; EExit 1; EMuLock 1; EMuUnlock 1; ERUnlock 1; ERet 1 true; ELock 3; EEnter 3]%N.
+Example ex_global : exists s, run init ex_tr2 = Some s /\ pcs s 3%N = GInF /\ running s = [] /\ accepts ex_tr2 = true.
+Proof. eexists. split; [vm_compute; reflexivity|]. vm_compute. repeat split; reflexivity. Qed.
+Example ex_skip_reported : ran_in_call (ex_tr ++ [ERUnlock 2]%N) 2%N = false /\ ran_in_call (ex_tr ++ [ERUnlock 2; ERet 2 false; EExit 1; EMuLock 1; EMuUnlock 1; ERUnlock 1]%N) 1%N = true.
+Proof. vm_compute. split; reflexivity. Qed.
+(* a schedule in which two goroutines are inside f for the same repository is not an execution *)
+Example ex_rejects : accepts [ECallWith 1 7; ECallWith 2 7; ERLock 1; ERLock 2; EMuLock 1; EMuUnlock 1; EEnter 1; EMuLock 2; EMuUnlock 2; EEnter 2]%N = false.
+Proof. vm_compute. reflexivity. Qed.
